@@ -343,7 +343,9 @@ fn stream_case(check: &Check, rng: &mut Rng) {
     check.count("multi_frame_streams", 1);
 }
 
-fn oversize_cases(check: &Check, tiny: bool) {
+/// returns true if an oversize length was *not* rejected (then no further hostile lengths must be fed:
+/// the decoder would try to reserve them and abort the process)
+fn oversize_cases(check: &Check, tiny: bool) -> bool {
     let declared: Vec<u64> = vec![MIB as u64 + 1, MIB as u64 + 2, 2 * MIB as u64, 16 * MIB as u64, 1 << 32, 1 << 62, 1 << 63, u64::MAX];
     for flag in 0..7u8 {
         for id in [0u64, 5, (1 << 60) - 1] {
@@ -370,7 +372,7 @@ fn oversize_cases(check: &Check, tiny: bool) {
                                     check.violation(sig, format!("declared {d} > 1 MiB with only the header fed: {} ok frame(s), error: {last_err}", n_ok), w.clone());
                                     // a decoder that accepts this would try to reserve the larger declared sizes
                                     // (allocation failure aborts the process): stop probing
-                                    return;
+                                    return true;
                                 } else if cap > 4 * MIB {
                                     check.violation("oversize-length-grew-buffer", format!("buffer capacity {cap} after rejected header"), w.clone());
                                 }
@@ -381,7 +383,7 @@ fn oversize_cases(check: &Check, tiny: bool) {
                 }
             }
             if tiny {
-                return;
+                return false;
             }
         }
     }
@@ -420,6 +422,7 @@ fn oversize_cases(check: &Check, tiny: bool) {
             }
         }
     }
+    false
 }
 
 fn unknown_type_cases(check: &Check) {
@@ -569,8 +572,12 @@ pub fn run(args: &Args) -> i32 {
     });
     vmon::par_cases(&check, util::budget(args, 4_000, 800_000, 6), args.threads, |_, rng| stream_case(&check, rng));
     // B, C
-    oversize_cases(&check, tiny);
+    let trusts_lengths = oversize_cases(&check, tiny);
     unknown_type_cases(&check);
+    if trusts_lengths {
+        check.note("arbitrary_bytes_skipped", json!("an oversize declared length was accepted; feeding arbitrary lengths would abort on allocation"));
+        return check.finish();
+    }
     // D
     if !tiny {
         // all strings of length <= 2
